@@ -11,7 +11,7 @@ META = {
     "reference computed from the registration list.",
     "trusted_base": ["reference router / reference link filter in the harness", "vf.simloop.SimLoop", "pipe-level driver"],
     "assumptions": [
-        "layouts the class documentation declares unsupported (a plain resource and a nested site at the same path) are excluded",
+        "a plain resource and a nested site may share a path (documented); removing one of such a pair is documented as unsupported and excluded",
         "nested sites at non-empty paths (a site registered at the root of another site is not a supported layout)",
         "one filter parameter per query (RFC 6690 4.1 defines a single search parameter)",
     ],
@@ -125,8 +125,8 @@ def mk_routing(first_path, first_kind):
                 for i, (p, kind) in enumerate(regs):
                     if kind != 0 and p == ():
                         return                  # nested site at the root of a site: not a supported layout
-                    if (kind == 0 and p in model["sub"]) or (kind != 0 and p in model["res"]):
-                        return                  # resource and nested site at the same path: documented as unsupported
+                    # a plain resource and a nested site at the same path: documented ("odd design") -- requests for exactly that
+                    # path go to the resource, longer ones to the site; only removal is documented as unsupported (below)
                     obj, m = build(kind, "r%d" % i)
                     site.add_resource(list(p), obj)
                     if kind == 0:
@@ -135,6 +135,8 @@ def mk_routing(first_path, first_kind):
                         model["sub"][p] = m[1]
                 # one further operation: 1 = remove registration opi, 2 = replace registration opi by a fresh plain resource / site
                 o = pick([0, 1, 2], op)
+                if o and regs[0][0] == regs[1][0] and (regs[0][1] == 0) != (regs[1][1] == 0):
+                    return                      # removing / replacing one of a resource and a nested site sharing a path: unsupported
                 if o:
                     p, kind = regs[pick([0, 1], opi)]
                     present = p in (model["res"] if kind == 0 else model["sub"])
@@ -175,6 +177,7 @@ LISTING = [
     ((), "leaf", {"rt": "root"}),
     (("a", ""), "leaf", {"rt": "temp"}),
     (("t", ""), "site", {}),
+    (("r",), "bare", {}),
 ]
 FILTERS = [None, "rt=humidity", "rt=temperature-c", "rt=temp*", "rt=temperature-c humidity", "rt=hum", "if=sensor", "if=core.b", "if=core*", "ct=0", "ct=40",
            "ct=4*", "href=/a", "href=/a*", "href=/s/*", "href=/", "rt=*", "rt=nothing", "noequals", "foo=bar", "rt=root", "href=/s/x", "href=/t//x", "href=/t/*"]
@@ -195,11 +198,25 @@ def mk_listing(reach, two=False):
         def get_link_description(self):
             return None
 
-    MASKS = [0b11111111, 0b00000000, 0b00010011, 0b11101100, 0b10010000, 0b10101011]
+    from aiocoap import interfaces
+
+    class Bare(interfaces.Resource):
+        """implements the resource interface directly: no get_link_description -- listed without attributes"""
+
+        async def render(self, request):
+            return Message(payload=b"bare")
+
+        async def needs_blockwise_assembly(self, request):
+            return True
+
+        async def render_to_pipe(self, pipe):
+            await self._render_to_pipe(pipe)
+
+    MASKS = [0b111111111, 0b000000000, 0b100010011, 0b011101100, 0b110010000, 0b010101011]
     REMOVED = [-1, 4, 0, 3, 7]
 
     if two:
-        MASKS = [0b11111111, 0b00010011, 0b11101100]
+        MASKS = [0b111111111, 0b100010011, 0b011101100]
 
     def h(mi: int, fi: int, ri: int) -> None:
         assert 0 <= mi < len(MASKS) and 0 <= fi < (len(FILTERS2) if two else len(FILTERS)) and 0 <= ri < (len(FILTERS2) if two else len(REMOVED))
@@ -228,7 +245,7 @@ def mk_listing(reach, two=False):
                         expected[pre + "/"] = {}
                         expected[pre + "/d/z"] = {}
                 else:
-                    r = Hidden() if kind == "hidden" else Leaf()
+                    r = Hidden() if kind == "hidden" else (Bare() if kind == "bare" else Leaf())
                     for k, v in attrs.items():
                         setattr(r, k, v)
                     site.add_resource(list(p), r)
@@ -283,7 +300,7 @@ def obligations(tier):
                                         "operation": "none / remove / replace one registration", "request path": "index over %d paths" % len(REQPATHS)},
                               concrete={"first registration": [list(p), k]}, stubs=["SimLoop", "pipe-level driver"]))
     obs.append(Obligation("wkc-listing-and-filters", mk_listing, 280 if q else 1500, functions=FUNCS,
-                          symbolic={"registered subset": "index over 6 subsets of %d registrations (plain, hidden, nested site, root, empty component)" % len(LISTING),
+                          symbolic={"registered subset": "index over 6 subsets of %d registrations (plain, hidden, nested site, root, empty component, interface-only resource)" % len(LISTING),
                                     "filter": "index over %d queries" % len(FILTERS), "removed registration": "none / site / plain / hidden"}))
     obs.append(Obligation("wkc-two-filters", lambda reach: mk_listing(reach, two=True), 280 if q else 1500, functions=FUNCS,
                           symbolic={"registered subset": "index over 3 subsets of %d registrations" % len(LISTING),
